@@ -14,6 +14,7 @@
 import Umya.Lemmas.Style
 import Umya.Lemmas.StyleCols
 import Umya.Lemmas.StyleReload
+import Umya.Lemmas.TablesGen
 namespace Umya.Thm.C05
 open Umya.Style Umya.Interning
 
@@ -178,5 +179,12 @@ def cols4 : List (Col Nat) :=
    ⟨4, "10".toList, true, false, 7⟩]
 example : (mergeCols id (sortCols cols4)).map (fun r => (r.min, r.max)) = [(1, 3), (4, 4)] := by decide
 example : expand (mergeCols id (sortCols cols4)) = sortCols cols4 := by decide
+
+
+/-- **Tie to the source (T).**  The built-in number-format table the model uses is the one
+    `tools/extract_tables.py` regenerated from `FILL_BUILT_IN_FORMAT_CODES` on this run. -/
+theorem C05_tables_match_source :
+    Umya.Gen.builtin_format_codes.map (fun p => (p.1, p.2.toList)) = Umya.Style.builtinCodes :=
+  Umya.Gen.gen_builtin_formats
 
 end Umya.Thm.C05
